@@ -34,17 +34,17 @@ CFLAGS = ["-O1", "-g", "-fno-omit-frame-pointer", "-DNDEBUG", "-I" + REPO, "-I" 
           "-DMIR_VERIF", "-w"]
 
 
-def build_harness():
+def build_harness(name="c17_harness", CFLAGS=CFLAGS):
     hsrc = os.path.join(VERIF, "harness", "c17_harness.c")
     units = [("h", hsrc), ("gen", os.path.join(REPO, "mir-gen.c")), ("c2m", os.path.join(REPO, "c2mir", "c2mir.c"))]
     key = vf.file_hash(vf.repo_sources() + [hsrc], " ".join(CFLAGS))
     d = os.path.join(vf.CACHE, "bin")
     os.makedirs(d, exist_ok=True)
-    exe = os.path.join(d, f"c17_harness-{key}")
+    exe = os.path.join(d, f"{name}-{key}")
     if os.path.exists(exe):
         return exe, ""
     for f in os.listdir(d):
-        if f.startswith("c17_harness-"):
+        if f.startswith(name + "-"):
             try:
                 os.remove(os.path.join(d, f))
             except OSError:
@@ -72,7 +72,14 @@ def build_harness():
     return exe, log
 
 
-EXE, build_log = build_harness()
+with ThreadPoolExecutor(max_workers=2) as _ex:
+    _f1 = _ex.submit(build_harness)
+    # assert-enabled flavour (no -DNDEBUG): used for the tiered histories only
+    _f2 = _ex.submit(build_harness, "c17_harnessdbg", [f for f in CFLAGS if f != "-DNDEBUG"])
+    EXE, build_log = _f1.result()
+    EXE_DBG, _dbg_log = _f2.result()
+if EXE is not None and EXE_DBG is None:
+    ck.broken_ties.append({"kind": "harness-compile", "name": "c17_harness (assert flavour)", "log": _dbg_log[-1500:]})
 if EXE is None:
     ck.log("HARNESS BUILD FAILED\n" + build_log[-3000:])
     ck.broken_ties.append({"kind": "harness-compile", "name": "c17_harness", "log": build_log[-1500:]})
@@ -134,11 +141,11 @@ if not proof_ok:
 os.makedirs(WORK, exist_ok=True)
 
 
-def run_harness(steps, tag, timeout=60):
+def run_harness(steps, tag, timeout=60, exe=None):
     """-> dict(rc, trace (path), stderr)"""
     tr = os.path.join(WORK, tag + ".tr")
     try:
-        p = subprocess.run([EXE, tr, *steps], stdout=subprocess.DEVNULL, stderr=subprocess.PIPE, text=True,
+        p = subprocess.run([exe or EXE, tr, *steps], stdout=subprocess.DEVNULL, stderr=subprocess.PIPE, text=True,
                            timeout=timeout, cwd=WORK, errors="replace")
         rc, err = p.returncode, p.stderr
     except subprocess.TimeoutExpired:
@@ -293,7 +300,8 @@ def run_history(h):
             f.write(content)
         tmpf.append(fp)
         steps = [x.replace("$WORK/" + name, fp) for x in steps]
-    res = run_harness(steps, tag, timeout=60 if QUICK else 180)
+    dbg = bool(h.get("assert_build")) and EXE_DBG is not None
+    res = run_harness(steps, tag, timeout=60 if QUICK else 180, exe=EXE_DBG if dbg else None)
     r = {"h": h, "rc": res["rc"], "stderr": res["stderr"], "viol": [], "stats": {}, "status": "ok"}
     if res["rc"] in REJECT:
         r["status"] = "rejected:" + REJECT[res["rc"]]
@@ -307,6 +315,14 @@ def run_history(h):
     elif res["rc"] == 2:
         r["status"] = "harness-abort"
         r["viol"].append(("C17:allocator-request-unservable", "the checking allocator could not serve a request of the library: " + res["stderr"][-200:], res["stderr"][-300:]))
+    elif res["rc"] == 8 and dbg and "Assertion" in res["stderr"]:
+        m_ = re.search(r"([\w./-]+):(\d+): (\w+): Assertion `([^']*)' failed", res["stderr"])
+        r["status"] = "assert-failed"
+        r["crashed"] = True
+        where = f"{os.path.basename(m_.group(1))}:{m_.group(3)}" if m_ else "unknown"
+        r["viol"].append((f"C17:tiered-assert:{where}",
+                          "assert-enabled library aborts in a tiered (interpret + generate) history: "
+                          + (f"{m_.group(3)}: `{m_.group(4)}'" if m_ else res["stderr"][-200:]), res["stderr"][-300:]))
     elif res["rc"] != 0:
         # a crash elsewhere (e.g. DESIGN #3: MIR_output on an expr item) is not a statement about the
         # allocators; the partial trace is still judged, the history is counted as rejected
@@ -699,7 +715,7 @@ def tail_steps(rng, gen, c2m):
 
 
 def gen_history(rng, mirs, cs, kind=None):
-    kind = kind or rng.choice(["mir", "mir", "c", "c", "c", "api", "api", "cmisc", "cerr", "lrefmod"])
+    kind = kind or rng.choice(["mir", "mir", "c", "c", "c", "api", "api", "cmisc", "cerr", "lrefmod", "tiered"])
     iface = rng.choice(IFACES)
     level = rng.below(4)
     link = f"link:{iface}@{level}"
@@ -764,6 +780,58 @@ def gen_history(rng, mirs, cs, kind=None):
             s.append(f"genall:{rng.below(2)}")
         return {"kind": kind, "input": "generated lref module", "iface": iface, "level": level,
                 "files": {"lref.mir": gen_lref_module(rng)}, "steps": s + tail_steps(rng, iface != "interp", False)}
+    if kind == "tiered":
+        # one context linked for the interpreter; single functions are then interpreted AND generated
+        # (MIR_gen / lazy / lazy-bb interface set per function) in varying order.  Functions with lref data
+        # are kept out (C16 known finding lref-cells-shared-by-engines: they cannot be both).
+        src = rng.choice(["api", "api", "mir", "c"])
+        c2m = False
+        funcs = ["main"]
+        if src == "api":
+            seed = rng.below(25000) * 4 + rng.choice([0, 1])      # bit 1 clear: no lref data
+            s.append(f"api:{seed}")
+            if seed % 3 == 0:
+                funcs.append("loop")
+            inp_name = f"api:{seed}"
+        elif src == "mir":
+            ok = []
+            for f in mirs:
+                try:
+                    t = open(f, errors="replace").read()
+                except OSError:
+                    continue
+                if not re.search(r"\blref\b|^\s*(\w+:)?\s*expr\s", t, flags=re.M) and re.search(r"^main:", t, flags=re.M) \
+                        and "test11" not in f:        # assert builds abort on test11 (DESIGN §6 observations)
+                    ok.append(f)
+            f = rng.choice(ok)
+            s.append("scan:" + f)
+            inp_name = os.path.relpath(f, REPO)
+        else:
+            f = rng.choice(cs)
+            s.append("c2m:" + f)
+            c2m = True
+            inp_name = os.path.relpath(f, REPO)
+        s += ["load", "link:interp@0"]
+        level = rng.below(4)
+        pats = [["irun", "gen1", "grun"], ["gen1", "grun", "irun"], ["irun", "gen1", "irun", "grun"],
+                ["irun", "setif:lazy", "grun"], ["irun", "setif:lazybb", "grun"],        # (interpreting again after lazy-bb generation crashes: the insns stay in generator form)
+                 ["gen1", "irun", "gen1", "grun"]]
+        seqs = []
+        for fn in funcs:
+            seq = []
+            for o in rng.choice(pats):
+                if o == "gen1":
+                    seq.append(f"gen1:{fn}@{level}")
+                elif o.startswith("setif"):
+                    seq.append(f"setif:{fn}@{o.split(':')[1]}")
+                else:
+                    seq.append(f"{o}:{fn}@{7 + rng.below(50)}")
+            seqs.append(seq)
+        while any(seqs):                                   # several functions mixed
+            q = rng.choice([x for x in seqs if x])
+            s.append(q.pop(0))
+        return {"kind": kind, "input": inp_name, "iface": "tiered", "level": level, "assert_build": rng.chance(1, 2),
+                "steps": s + tail_steps(rng, True, c2m)}
     if kind == "cerr":
         # a translation unit with errors (c2mir_compile returns 0, no MIR error is raised), then a good one
         e = os.path.join(VERIF, "corpus", "C17", rng.choice(["err_syntax.c", "err_semantic.c", "err_preproc.c"]))
@@ -836,6 +904,7 @@ def report_history(r, sig, what, detail):
     finding(sig, what, {"stage": "tie", "theorem_or_correspondence": "ledger monitor over an API history",
                         "input": {"steps": [x.replace(REPO, "$REPO") for x in h["steps"]], **({"files": h["files"]} if h.get("files") else {})},
                         "impl": detail, "spec_verdict": what,
+                        **({"assert_build": True} if h.get("assert_build") else {}),
                         "how_to_rerun": f"VERIF_REPO={REPO} ./check C17 --replay <this file>   (or: {steps_cmd(h['steps'])})"})
 
 
@@ -853,7 +922,7 @@ if ck.replay:
         ck.finish()
     if isinstance(inp, dict) and "steps" in inp:
         h = {"kind": "replay", "steps": [x.replace("$REPO", REPO).replace("$VERIF", VERIF) for x in inp["steps"]],
-             "files": inp.get("files")}
+             "files": inp.get("files"), "assert_build": rp.get("assert_build")}
         r = run_history(h)
         ck.log(f"replay: status={r['status']} stats={r['stats']}")
         for sig, what, det in r["viol"]:
@@ -973,6 +1042,9 @@ if EXE is not None and os.path.exists(DRV):
                "steps": ["init", "api:2", "write", "finish", "init", "readbuf", "output", "finish", "fin"]})
     for _ in range(6 if QUICK else 40):
         hs.append(gen_history(ck.rng, mirs, cs, "lrefmod"))
+    for i in range(12 if QUICK else 80):
+        hs.append(gen_history(ck.rng, mirs, cs, "tiered"))
+        hs[-1]["assert_build"] = i % 2 == 1
     while len(hs) < n_hist:
         hs.append(gen_history(ck.rng, mirs, cs))
     results = run_histories(hh + hs)
@@ -995,6 +1067,9 @@ if EXE is not None and os.path.exists(DRV):
                 n_nontriv += 1
         for sig, what, det in r["viol"]:
             report_history(r, sig, what, det)
+        if r["status"].startswith("rejected") and len(dist.setdefault("rejected_samples", [])) < 6:
+            dist["rejected_samples"].append({"status": r["status"], "steps": [x.replace(REPO, "$REPO") for x in h["steps"]],
+                                             "assert_build": bool(h.get("assert_build")), "stderr": r["stderr"][-160:]})
     for r in results[len(hh):len(hh) + 4]:
         ck.sample({"steps": [x.replace(REPO, "$REPO") for x in r["h"]["steps"]], "status": r["status"], "events": r.get("counts")})
     n_rej = sum(v for k, v in dist["status"].items() if k.startswith("rejected"))
